@@ -133,8 +133,18 @@ func (d *Decorator) DecorateNode(n ast.Node) (dst.Node, error) {
 	if f, ok := n.(*ast.File); ok {
 		fd.file = f
 	}
-	fd.fragment(n)
-	fd.link()
+	if pkg, ok := n.(*ast.Package); ok {
+		// Fragment and link the files of a package one at a time, so that comments and newlines
+		// can never be attached to a node of another file.
+		for _, file := range pkg.Files {
+			fd.fragments = nil
+			fd.fragment(file)
+			fd.link()
+		}
+	} else {
+		fd.fragment(n)
+		fd.link()
+	}
 
 	out, err := fd.decorateNode(nil, "", "", "", n)
 	if err != nil {
